@@ -41,7 +41,7 @@ S_MORE = [K("k3::S-Switch"), K("k3::S-Case-Condition")]
 S_COMMENT = [K("k3::S-Comment-noninterp"), K("k3::S-Comment-drop"), K("k3::S-Comment-interp")]
 TAL_BASIC = [K("k3::S-Define"), K("k3::S-Define-clauses"), K("k3::S-Condition"), K("k3::S-Content"), K("k3::S-OmitTag"),
              K("k3::S-OmitTag-empty"), K("k3::S-OmitTag-selfclosing"),
-             K("k3::S-Attribute"), K("k3::S-Attribute-dict"), K("k3::S-Combined"), K("k3::S-Repeat")]
+             K("k3::S-Attribute"), K("k3::S-Attribute-dict"), K("k3::S-Literal"), K("k3::S-Combined"), K("k3::S-Repeat")]
 
 S_TALES = [K("k3::S-Pipe3"), K("k3::S-Not"), K("k3::S-Exists"), K("k3::S-LambdaScope")]
 S_INTERP = [K("k3::S-Interp-text"), K("k3::S-Interp-off"), K("k3::S-Interp-lines"),
